@@ -130,7 +130,7 @@ func genShareWithin(t *rapid.T, nodes []shape.Node, d *shape.Data) []SharePair {
 }
 
 var aliasLeafTypes = []string{
-	"[]string", "[]int", "[][]int", "[]Rec", "[]*int", "[]map[string]int", "[2]*int", "[2][]int", "[1]Rec",
+	"[]string", "[]int", "[][]int", "[]Rec", "[]*int", "[]map[string]int", "[2]*int", "[2][]int", "[1]Rec", "[2][2]*int", "[2][1]map[string]int", "*[2][1][]int", "[][1][2]*int",
 	"map[string]int", "map[string][]string", "map[string][]int", "map[string]Rec", "map[string]*int", "map[string]map[string]int", "map[string]struct{}",
 	"*int", "*string", "**int", "*[]int", "*map[string]int", "*[2]int", "*Stamp", "*time.Time", "net.IP", "Names", "Limits",
 	"Tagged", "*Tagged", "[]Tagged", "map[string]Tagged", "[1]Tagged",
